@@ -218,7 +218,7 @@ class Input(ContextManager["Input"]):
                     if self.queued_interrupting_events:
                         return False, self.queued_interrupting_events.pop(0)
                     elif remaining_timeout is not None:
-                        remaining_timeout = max(0, t0 + remaining_timeout - time.time())
+                        remaining_timeout = max(0, t0 + timeout - time.time())
                         continue
                     else:
                         continue
@@ -227,7 +227,7 @@ class Input(ContextManager["Input"]):
                 if self.sigints:
                     return False, self.sigints.pop()
                 if remaining_timeout is not None:
-                    remaining_timeout = max(remaining_timeout - (time.time() - t0), 0)
+                    remaining_timeout = max(timeout - (time.time() - t0), 0)
 
     def send(
         self, timeout: Optional[Union[float, None]] = None
